@@ -499,6 +499,9 @@ func (s *Scenario) buildWorld(W string, src []byte, image []byte) (*worldPaths, 
 	case "missing":
 	case "dir":
 		must(os.Mkdir(srcAbs, 0755))
+	case "socket": // a unix-domain socket node where the source should be: open(2) fails with ENXIO
+		must(syscall.Mknod(srcAbs, syscall.S_IFSOCK|0666, 0))
+		os.Chmod(srcAbs, 0666)
 	case "mode000":
 		must(os.WriteFile(srcAbs, src, 0644))
 		must(os.Chmod(srcAbs, 0))
@@ -633,6 +636,9 @@ func (s *Scenario) buildWorld(W string, src []byte, image []byte) (*worldPaths, 
 		dstArg = dstAbs
 	case "is_dir":
 		must(os.Mkdir(dstAbs, 0777))
+	case "socket": // a unix-domain socket node: open(2) fails with ENXIO for every uid, the node stays
+		must(syscall.Mknod(dstAbs, syscall.S_IFSOCK|0666, 0))
+		os.Chmod(dstAbs, 0666)
 	case "symlink_file": // judged on the file the bytes land in, not on the link
 		tgt := filepath.Join(W, "out", "target.bin")
 		must(os.WriteFile(tgt, pre(len(image)+9), 0644))
@@ -862,7 +868,7 @@ type expectation struct {
 
 func (s *Scenario) srcReadable() bool {
 	switch s.SrcKind {
-	case "missing", "dir", "dangling", "loop", "longname", "emptyarg", "parent_is_file", "trailing_slash":
+	case "missing", "dir", "dangling", "loop", "longname", "emptyarg", "parent_is_file", "trailing_slash", "socket":
 		return false
 	case "mode000":
 		return s.Uid == 0
@@ -872,7 +878,7 @@ func (s *Scenario) srcReadable() bool {
 
 func (s *Scenario) dstCreatable() bool {
 	switch s.DstKind {
-	case "parent_missing", "parent_is_file", "is_dir", "longname", "emptyarg", "trailing_slash", "symlink_loop":
+	case "parent_missing", "parent_is_file", "is_dir", "longname", "emptyarg", "trailing_slash", "symlink_loop", "socket":
 		return false
 	case "ro_file", "ro_dir", "dir_no_search":
 		return s.Uid == 0
